@@ -14,7 +14,7 @@ VENDORS = ["huawei", "cisco", "arista", "nexus", "iosxr", "h3c", "b4com", "pc", 
 FLAT = {"juniper": "set", "ribbon": "set", "nokia": "/configure"}
 RULE = ("Hypothesis draws (via strategies.randoms, every choice a Hypothesis draw) a rule tree over the rule language "
         "(literals, *, trailing ~, nested blocks depth<=3, %global leaf rule, %ordered child rules, '~ %rewrite %global' blocks, "
-        "logics default/undo_redo/permanent/ignore_changes), a block-structured vendor, a device tree old with <=1 row per (rule,key) "
+        "logics default/undo_redo/permanent/ignore_changes), one of 13 vendors (10 block-structured, 3 with flat set/delete streams), a device tree old with <=1 row per (rule,key) "
         "plus rows no rule knows, and a chain of 1..4 targets each a mutation of the previous one (drop / same-key value change / "
         "key change / recurse / fresh rows / reorder). Each step runs annet.api._diff_and_patch + formatter.cmd_paths and EXECUTES the "
         "command paths on vf.model.devsim; oracle: device state == expected target, second diff empty and second patch without commands "
